@@ -637,6 +637,14 @@ fn check_op(c: &mut Ctx, w: &[&str], before: &(HashSet<SocketAddr>, HashSet<Sock
         if after.0.iter().chain(after.1.iter()).any(|a| c.sock.local == *a) {
             st.fail(case, line, "[C12] the node's own address was admitted");
         }
+        {
+            let t = c.h.table();
+            let t = t.lock().unwrap();
+            let me = &c.me;
+            if t.buckets().any(|b| b.iter().any(|n| n.id().as_ref() == &me[..] && n.addr().port() != 0)) {
+                st.fail(case, line, "[C12] the node's own id was admitted as a contact");
+            }
+        }
     }
 }
 
